@@ -422,7 +422,7 @@ LIFECYCLE = [('instrument', 'started', 'telescope'), ('instrument', 'finished', 
 def C13(tr):
     out = []
     ev = tr.events_df
-    if ev is None or tr.status != 'completed':
+    if ev is None or tr.status not in ('completed', 'budget'):
         return out
     so = scenario_obs(tr)
     u = unit_factor(tr.sc.get('unit', 'seconds'))
@@ -455,6 +455,8 @@ def C13(tr):
                 if ts and not partial:
                     out.append(V('C13', 'spurious_entry', f"{name}: log has {k} at {ts} but that transition never happened"))
                 continue
+            if partial and tr.final_now is not None and want >= tr.final_now - 2:
+                continue          # cut-off run: the last steps' entries have not been recorded by the monitor yet
             if len(ts) != 1:
                 out.append(V('C13', 'entry_count', f"{name}: {len(ts)} log entries for {k[0]}/{k[2]} {k[1]} (happened once, at {want})"))
                 continue
@@ -462,6 +464,12 @@ def C13(tr):
             if ts[0] != int(want):
                 out.append(V('C13', 'entry_time', f"{name}: {k[0]}/{k[2]} {k[1]} logged at {ts[0]}, happened at {want}"))
         L = LIFECYCLE
+        # 'finished' exactly one duration after 'started' - also judged on a run that was cut off by the step
+        # budget, as soon as the clock is past that moment (the monitor records a step's entries in the next step)
+        if rec['begin'] is not None and tr.final_now is not None:
+            due = rec['begin'] + so[name]['duration'] // u
+            if tr.final_now > due + 2 and not times(L[1]):
+                out.append(V('C13', 'finished_missing', f"{name}: started at {rec['begin']}, duration {so[name]['duration'] // u}: no 'telescope finished' entry although the clock is at {tr.final_now}"))
         chain = [L[0], L[4], L[6], L[7], L[5]]
         seq = [got[k] for k in chain if k in got]
         if any(seq[i] > seq[i + 1] for i in range(len(seq) - 1)):
